@@ -70,6 +70,23 @@ def run(res):
                               "stack %s: %s after `%s` (last operations: %s)" % (m, what, (ep or [""])[-1][:160], rp),
                               {"how": how, "failing_ops": rp, "sanitizer": out[-1800:]})
                 found = True
+        # the reply ring of the CS104 server: its entry sizes are chosen by the peer (mirrored commands); direct differential of
+        # the static ring functions + model-free FIFO oracle (same harness mode as C13) - an overwritten size field is a
+        # peer-controlled heap overflow at dequeue
+        from checks import srv_common
+        sdir = os.path.join(bdir, "srv")
+        os.makedirs(sdir, exist_ok=True)
+        excl = {"iec60870/cs104/cs104_slave.c", "hal/memory/lib_memory.c"} | set(REAL_HAL)
+        build_harness("srv104", ["srv104.c", "simhal.c", "memcount.c"], lib, sdir, exclude=excl,
+                      extra_flags=["-I" + os.path.join(SRC, "iec60870/cs104")])
+        n_before = len(res.violations)
+        hn, hdiffs, hfound, hhisto = srv_common.run_hp_ring(res, sdir)
+        total_ops += hn
+        histos.append(hhisto)
+        found = found or hfound or len(res.violations) > n_before
+        if hdiffs and not hfound:
+            d = hdiffs[0]
+            broken.append("reply-ring correspondence: after `%s` implementation `%s` model `%s`" % (d.get("op", "")[:160], d.get("impl", "")[:300], d.get("model", "")[:300]))
         # the file-service plugin, differentially (chaos episodes with truncated / unrelated / out-of-sequence requests)
         fexe = c20.build(os.path.join(bdir, "fs"))
         n, diffs, f2, h2, _ = c20.run_streams(res, fexe, os.path.join(bdir, "fs"), PID, [seed() + 100], res.tier)
